@@ -282,7 +282,12 @@ def judge(family, case, rec):
             _call(rec, family, case, "separates", U.separates, S, Aa, B, A)
             if (S, Aa, B) != (S0, A0, B0):
                 rec.violation("C15:separates-mutates-sets", family, case, "separates modified its set arguments")
-        # overlapping sets => ValueError
+        # empty sides: no path to meet, so every S "separates" (vacuous truth; the contract judges the value)
+        v0 = int(rng.integers(p))
+        for (S, Aa, B) in ((set(), set(), {v0}), ({(v0 + 1) % p}, {v0}, set()), (set(), set(), set()),
+                           (set(range(p)) - {v0}, {v0}, set()), (set(), {v0}, set(range(p)) - {v0})):
+            _call(rec, family, case, "separates", U.separates, S, Aa, B, A)
+            rec.count("separates:empty-side-or-everything")
         v = int(rng.integers(p))
         w = int((v + 1) % p)
         for (S, Aa, B) in (({v}, {v}, {w}), (set(), {v, w}, {w}), ({w}, {v}, {w})):
